@@ -691,6 +691,8 @@ class Verifier(Interp):
                 v = env.get(pn)
                 if isinstance(v, P):
                     flat.append(v.term)
+                elif isinstance(v, OptV) and isinstance(v.val, P):
+                    flat.extend([v.some, z3.If(v.some, v.val.term, self.term(self.default(v.val.ty)))])
                 elif isinstance(v, (Ref, ClsV)):
                     continue
                 else:
@@ -931,6 +933,39 @@ class Verifier(Interp):
                 return i
         raise Unsupported("loop not found")
 
+    MUTATORS = ("add", "append", "extend", "insert", "update", "pop", "remove", "clear", "sort", "discard", "setdefault")
+
+    def mutated_cells(self, stmts):
+        """local names whose heap cell is changed through a mutating method call or item assignment in stmts"""
+        out = set()
+        for st in stmts:
+            for n in ast.walk(st):
+                if isinstance(n, ast.Call) and isinstance(n.func, ast.Attribute) and isinstance(n.func.value, ast.Name) \
+                        and n.func.attr in self.MUTATORS:
+                    out.add(n.func.value.id)
+                if isinstance(n, (ast.Assign, ast.AugAssign)):
+                    for t in (n.targets if isinstance(n, ast.Assign) else [n.target]):
+                        if isinstance(t, ast.Subscript) and isinstance(t.value, ast.Name):
+                            out.add(t.value.id)
+        return out
+
+    def havoc_local_cells(self, names):
+        for v in sorted(names):
+            val = self.st.vars.get(v)
+            if isinstance(val, OptV):
+                val = val.val
+            if not isinstance(val, Ref) or val.ty.kind == "obj":
+                continue
+            old = self.st.heap[val.rid]
+            if isinstance(old, Special) and old.tag in ("emptyset", "anyset"):
+                self.st.heap[val.rid] = Special("anyset")
+            elif isinstance(old, P) and old.ty.kind == "set":
+                self.st.heap[val.rid] = P(old.ty, z3.Const(self.fresh_name("hv." + v), sort_of(old.ty)))
+            elif isinstance(old, (P, MapV, BimapV)):
+                self.havoc_ref(val, v)
+            elif isinstance(old, lib.ListV):
+                raise Unsupported("list %s with concrete spine is mutated inside a loop cut by an invariant" % v)
+
     def assigned_names(self, stmts):
         names = set()
         for st in stmts:
@@ -971,6 +1006,16 @@ class Verifier(Interp):
         if isinstance(c, Special) and c.tag == "enumerate":
             n, at = self.iter_model(c.it, s)
             return n, (lambda k: TupV([P(INT, k), at(k)]))
+        if isinstance(it, Ref) and it.ty.kind == "obj" and self.st.heap[it.rid].cls == "InFile":
+            # lazy iteration over a text file: any line may fail to decode when it is reached (E-os)
+            lines = lib.seq_of(self, self.st.heap[it.rid].fields["lines"])
+
+            def at_line(k, _l=lines):
+                if self.may_catch("UnicodeDecodeError"):
+                    if self.decide(z3.Bool(self.fresh_name("decode.fails"))):
+                        raise RaiseSig("UnicodeDecodeError")
+                return P(STR, _l.term[k])
+            return z3.Length(lines.term), at_line
         if isinstance(c, Special) and c.tag == "mapitems":
             E = self.map_enum(c.m)
             return z3.Length(E), (lambda k: TupV([P(c.m.kt, E[k]), P(c.m.vt, z3.Select(c.m.val, E[k]))]))
@@ -1051,6 +1096,7 @@ class Verifier(Interp):
         self.st.calls = saved_calls
         # --- havoc
         mods = self.assigned_names(s.body) | set(inv.modifies)
+        self.havoc_local_cells(self.mutated_cells(s.body) - set(x.split(".")[0] for x in inv.heap_modifies))
         pre_vars = dict(self.st.vars)
         for v in sorted(mods):
             if v in self.st.vars:
